@@ -1,8 +1,13 @@
 #!/bin/sh
 # MANIFEST.setup_cmd: build the whole Coq development from files on disk (full .vo build, no -vos).
-set -e
-cd "$(dirname "$0")"
+# Every check re-builds the targets it needs itself (harness/lib.py: proof_step), so a failure of one
+# file here is reported but does not stop the others from being built (-k).
+cd "$(dirname "$0")" || exit 2
 sh coq/gen_project.sh
-cd coq
-coq_makefile -f _CoqProject -o Makefile > /dev/null
-timeout 3000 make -j16
+cd coq || exit 2
+coq_makefile -f _CoqProject -o Makefile > /dev/null || exit 2
+timeout 3000 make -k -j16 > .setup.log 2>&1
+rc=$?
+tail -5 .setup.log
+if [ $rc -ne 0 ]; then echo "setup: some Coq files failed to build (see coq/.setup.log); affected checks will report it"; fi
+exit 0
